@@ -71,8 +71,12 @@ CLAIMED = {
         "honoured or refused, automatic selection takes the first referencing input; amount and locking script come from the referenced output; "
         "legacy inputs run scriptSig then that scriptPubKey on an empty stack; a segwit session exists only for a version-0/1 witness program that "
         "is the scriptPubKey or the exact single push the P2SH scriptPubKey commits to, the revealed script/key hashes to the program (a mismatch "
-        "is refused), initial stack/script/control block/annex/validation weight are the ones BIP141/341 prescribe. NOT proved: equality of the "
-        "whole staged session with a monolithic VerifyScript specification (C03_session_equals_verify_script) - the session outcome is tied by "
+        "is refused), initial stack/script/control block/annex/validation weight are the ones BIP141/341 prescribe. WHOLE-SESSION THEOREM for "
+        "legacy inputs (script-only, scriptSig+scriptPubKey, P2SH): running the session to its end (continue) ends exactly as the reference "
+        "VerifyScript (VerifySpec.v: one EvalScript call per script, each with its own alt stack / op count / code hash, balanced nesting, "
+        "scriptPubKey size limit, P2SH redeem script from the scriptSig's stack) - same final environment and status. NOT proved: the same "
+        "for witness inputs (C03_witness_session_is_validation: the witness program dispatch is covered by the configuration theorems, the run of "
+        "the single witness script by the script-only case). The session outcome is additionally tied by "
         "correspondence: synthesised pairs of every output type, signed by an independent signer, valid and corrupted, 1..3 inputs, --select, "
         "flag variations, and the six doc/txs pairs; implementation vs model on every case and vs validity-by-construction.",
    note=TB + "Elliptic-curve predicates are an oracle of the model answered by tools/refcrypto.py (independent pure-Python secp256k1); digests are modelled in Sighash.v and cross-checked by tools/gen_spend.py's independent implementation. Known finding F31 (multi-input taproot).",
